@@ -15,7 +15,7 @@ m = {
  "version": 1,
  "setup_cmd": "sh /verif/setup.sh",
  "hooks": {
-  "guard": "none (check-time weaving): every check copies /repo's working tree to a temporary directory, rewrites the copy's sync/channel/go/select/map-range/time.Sleep constructs into calls of /verif/simrt with /verif/bin/weave, and builds that copy; nothing is committed to /repo",
+  "guard": "none (check-time weaving): every check copies /repo's working tree to a temporary directory, rewrites the copy's sync (Mutex, RWMutex, WaitGroup, Map) / channel / go / select / map-range / time.Sleep / tls.Client constructs into calls of /verif/simrt with /verif/bin/weave, and builds that copy; nothing is committed to /repo",
   "enable": "python3 /verif/check.py <id> (copy -> bin/weave -> go1.26.8 test -c [-race])",
   "baseline_off_cmd": BASE,
   "source_commits": [],
@@ -27,7 +27,7 @@ m = {
  ],
  "checks": CHECKS,
  "not_applicable": [{"property_id": i, "reason": r} for i, r in NA if i not in claimed] ,
- "notes": "Properties not yet listed under checks or not_applicable are still being built (see DESIGN.md section 0 for the plan). Exit codes: 0 held, 1 VIOLATION, 2 infrastructure trouble (never a VIOLATION).",
+ "notes": "All 20 properties are decided: 16 are claimed under checks (C01-C14, C17, C18), 4 are not applicable to this technique (C15, C16, C19, C20; reasons below and in DESIGN.md section 0). Exit codes: 0 held, 1 VIOLATION, 2 infrastructure trouble (never a VIOLATION). known_findings.json holds only 'fixed' entries (genuine defects repaired by 'fix:' commits in /repo); a fixed entry suppresses nothing.",
 }
 # properties planned but not yet claimed are listed as not applicable *yet* with that reason, so the manifest is always complete
 ALL = ["C%02d" % i for i in range(1, 21)]
